@@ -5253,6 +5253,8 @@ static size_t ZSTD_compressBegin_internal(ZSTD_CCtx* cctx,
     cctx->traceCtx = (ZSTD_trace_compress_begin != NULL) ? ZSTD_trace_compress_begin(cctx) : 0;
 #endif
     DEBUGLOG(4, "ZSTD_compressBegin_internal: wlog=%u", params->cParams.windowLog);
+    /* a single-call or buffer-less session abandons a streaming frame in progress : its buffers are released below */
+    if (zbuff == ZSTDb_not_buffered) cctx->streamStage = zcss_init;
     /* params are supposed to be fully validated at this point */
     assert(!ZSTD_isError(ZSTD_checkCParams(params->cParams)));
     assert(!((dict) && (cdict)));  /* either dict or cdict, not both */
